@@ -575,3 +575,55 @@ Proof.
   exact (conj (gen_manageProof_spec _ _ h size _ _ Hh Hs Hp) (rewards_visit h s k)).
 Qed.
 Print Assumptions C03_code_tie_manageProof.
+
+From JK Require Import Gen.GoReward Proofs.GoTieReward.
+
+(* keeper.rewardAllProviders, generated from the current source in three units (the guard on the total, one prover,
+   one released coin for one prover): the payout model of Model/Rewards.v does what the generated units announce *)
+Theorem C03_code_tie_payout :
+  forall macct accts total tr coins b,
+    reward_all macct accts total tr coins b
+    = match gen_rewardGuard total with
+      | GVal [] => Rewards.Ok b
+      | _ => ofold (pay_prover macct accts total tr coins) (nsort (akeys tr)) b
+      end /\
+    (forall p, 0 < total ->
+       pay_prover macct accts total tr coins b p
+       = match gen_rewardProver (aval N.eqb tr p) (dec total)
+                 (match aget N.eqb accts p with Some _ => true | None => false end) with
+         | GVal [Ev _ [share]] =>
+             match aget N.eqb accts p with Some a => ofold (pay_coin macct a share) coins b | None => Rewards.Ok b end
+         | _ => Rewards.Ok b
+         end) /\
+    (forall to share c,
+       pay_coin macct to share b c
+       = match gen_rewardCoin (snd c) share true with
+         | GPanic => Rewards.Panic
+         | GVal [Ev _ [owed]] =>
+             if owed =? 0 then Rewards.Ok b
+             else if owed <=? bal b macct (fst c)
+                  then Rewards.Ok (credit (credit b macct (fst c) (- owed)) to (fst c) owed) else Rewards.Ok b
+         | GVal _ => Rewards.Ok b
+         end).
+Proof.
+  intros macct accts total tr coins b.
+  exact (conj (reward_all_follows macct accts total tr coins b)
+        (conj (fun p Ht => pay_prover_follows macct accts total tr coins b p Ht)
+              (fun to share c => pay_coin_follows macct to share b c))).
+Qed.
+Print Assumptions C03_code_tie_payout.
+
+(* and what each unit computes, in closed form *)
+Theorem C03_code_tie_payout_units :
+  forall total worth ok amount pct,
+    gen_rewardGuard total = GVal (if total <=? 0 then [] else [Ev "pay-provers-of"%string [dec total]]) /\
+    (0 < total ->
+     gen_rewardProver worth (dec total) ok
+     = GVal (if worth <=? 0 then [] else if ok then [Ev "pay-share"%string [dquo (dec worth) (dec total)]] else [])) /\
+    gen_rewardCoin amount pct ok
+    = (let owed := dtrunc (dmul pct (dec amount)) in if owed <? 0 then GPanic else GVal [Ev "pay"%string [owed]]).
+Proof.
+  intros total worth ok amount pct.
+  exact (conj (gen_rewardGuard_spec total) (conj (gen_rewardProver_spec worth total ok) (gen_rewardCoin_spec amount pct ok))).
+Qed.
+Print Assumptions C03_code_tie_payout_units.
